@@ -112,6 +112,7 @@ func runC02(c *Ctx) {
 		{"N2.F2", mixed, vrt.Budget{F: 2}, cut},
 		{"one.F2.P1", one[:1], vrt.Budget{F: 2, P: 1, Total: 3}, cut},
 		{"manual.one.F2", one, vrt.Budget{F: 2}, cutw},
+		{"timeout.one.F2", one, vrt.Budget{F: 2}, env.FaultSet{Silent: true, SilentDrop: true, LostClose: true, OnlyTypes: map[byte]bool{env.PUBLISH: true, env.PUBREL: true}}},
 	}
 	if c.Thorough() {
 		fams = []fam{
@@ -120,6 +121,8 @@ func runC02(c *Ctx) {
 			{"N3.F2", c02Workloads(3), vrt.Budget{F: 2}, cut},
 			{"one.F2.P2", one, vrt.Budget{F: 2, P: 2, Total: 4}, cut},
 			{"manual.one.F4", one, vrt.Budget{F: 4}, cutw},
+			{"timeout.one.F3", one, vrt.Budget{F: 3}, env.FaultSet{Silent: true, SilentDrop: true, LostClose: true, AckLost: true, OnlyTypes: map[byte]bool{env.PUBLISH: true, env.PUBREL: true}}},
+			{"timeout.N2.F2", mixed, vrt.Budget{F: 2}, env.FaultSet{Silent: true, SilentDrop: true, LostClose: true, OnlyTypes: map[byte]bool{env.PUBLISH: true, env.PUBREL: true}}},
 			{"manual.N2.F3", mixed, vrt.Budget{F: 3}, cut},
 		}
 	}
@@ -139,7 +142,7 @@ func runC02(c *Ctx) {
 						Bound: f.bound,
 						Cfg:   vrt.Config{Horizon: int64(600 * time.Second)},
 						Body: func() {
-							rcExecuteInto(&rcCfg{Reqs: reqs, Faults: f.faults, KeepSession: true, MethodB: mb, AlwaysResub: always, Manual: strings.HasPrefix(f.name, "manual.")}, &run)
+							rcExecuteInto(&rcCfg{Reqs: reqs, Faults: f.faults, KeepSession: true, MethodB: mb, AlwaysResub: always, Manual: strings.HasPrefix(f.name, "manual."), RespTimeout: c02RespTimeout(f.name)}, &run)
 							c02Oracle(run)
 						},
 						Observe: func() uint64 { return run.net.TraceHash() },
@@ -155,6 +158,15 @@ func runC02(c *Ctx) {
 	if sample != nil {
 		c.Sample(map[string]any{"workload": rcName(sample.cfg.Reqs), "faults": sample.broker.FaultLog, "wire": sample.net.TraceStrings(), "deliveries": fmt.Sprint(sample.broker.Deliveries)})
 	}
+}
+
+// c02RespTimeout: families named "timeout.*" run with RetryClient.ResponseTimeout set (a silent link
+// is then given up after 2 s and the message retransmitted on a new connection).
+func c02RespTimeout(fam string) time.Duration {
+	if strings.HasPrefix(fam, "timeout.") {
+		return 2 * time.Second
+	}
+	return 0
 }
 
 // c02Workloads: sequences of length <= n over {p1,p2,sub} x {S,N} containing at least one p2.
